@@ -79,7 +79,9 @@ func shape(s string) (isDir bool, objs []Obj) {
 			f("gw", "small", 6, 6, 6), d("privdir", 7, 0, 0), f("privdir/x", "empty", 6, 4, 0), d("wdir", 7, 7, 5)}
 	case "names":
 		return true, []Obj{d("", 7, 5, 5), f(longName, "small", 6, 4, 4), f("ünï-çødé.txt", "small2", 6, 4, 4), f("sp ace", "empty", 6, 4, 4),
-			d("dïr", 7, 5, 5), f("dïr/"+strings.Repeat("m", 100), "small", 6, 4, 4)}
+			d("dïr", 7, 5, 5), f("dïr/"+strings.Repeat("m", 100), "small", 6, 4, 4),
+			// names that merely begin with two dots are ordinary names
+			f("..data", "small2", 6, 4, 4), d("...", 7, 5, 5), f(".../..x", "small", 6, 4, 4)}
 	}
 	panic("shape " + s)
 }
